@@ -12,6 +12,7 @@ import ObiVerif.Lemmas.KmerIndex
 import ObiVerif.Lemmas.KmerIndexLim
 import ObiVerif.Lemmas.DeBruijnRound
 import ObiVerif.Lemmas.DeBruijnRoundTrip
+import ObiVerif.Lemmas.DeBruijnHist
 /-!
 # C19 — exact De Bruijn weights and heaviest path; strand-invariant canonical k-mers (property theorems)
 
@@ -834,5 +835,132 @@ example : ∃ m, newKmerMap 128 4 false = .ok m ∧
   · rw [query_limited_exact _ _ _ _ id 2 (fun a b _ _ h => h)]; decide
   · rw [query_limited_exact _ _ _ _ id 2 (fun a b _ _ h => h)]; decide
   · rw [query_limited_exact _ _ _ _ id 2 (fun a b _ _ h => h)]; decide
+
+/-! ## fourth pass: histories on ONE object
+
+`DeBruijnGraph` (`kmersize`, `kmermask`, `prevc`, `prevg`, `prevt`, `graph`) and `KmerMap` (`index`, the masks,
+`Kmersize`, `SparseAt`) hold **no cached answer** today: the model of the object is the state machine
+`Graph.apply` / `Graph.trace` (`Model/DeBruijnHist.lean`) whose queries are functions of the current map.  The
+theorems below are the specification the `gh` / `kh` operations of the harness enforce on the real object, query
+after query: a regression that memoises an answer and forgets to drop it in one mutator breaks `hist.stale-answer`
+(the real object against a fresh real graph holding its own table: `fresh`) and `hist.metamorphic`. -/
+
+/-- **A query is a function of the current state only.**  For every `1 ≤ k ≤ 32`, every history `pre` of pushes
+(counts ≥ 1), filters and queries in any order, and whatever follows: the observation made by a query placed after
+`pre` is the answer of the state reached by the MUTATORS of `pre` (the queries of `pre` can be deleted:
+`after_mutators`); and it is the answer of a FRESH graph holding the same weight table — `fresh k table` is a new
+`MakeDeBruijnGraph(k)` into which every k-mer of the table is pushed as a read of `k` bases with its weight as
+count, which is what the harness builds from the real object's table: same map, same `HasCycle`, `Len`,
+`MaxWeight`, `HaviestPath`, `LongestConsensus(id, 0)`, and the same possible outcomes of
+`LongestConsensus(id, min_cov)`. -/
+theorem query_after_history (k : Nat) (hk : 1 ≤ k) (h32 : k ≤ 32) (fuel : Nat) (pre post : List Step)
+    (hp : ∀ s ∈ pre, s.Pos) :
+    let g := (makeGraph k).after pre
+    Graph.trace fuel (makeGraph k) (pre ++ Step.query :: post)
+        = Graph.trace fuel (makeGraph k) pre ++ Obs.ans (g.answer fuel) g.nodes :: Graph.trace fuel g post ∧
+      g = (makeGraph k).after (pre.filter Step.isMut) ∧
+      (fresh k g.nodes).Equiv g ∧ (fresh k g.nodes).answer fuel = g.answer fuel ∧
+      ∀ m e, (fresh k g.nodes).consensusCovCands fuel m e = g.consensusCovCands fuel m e := by
+  intro g
+  have hinv : g.Inv := inv_after pre _ (inv_make k hk h32) hp
+  have hgk : g.k = k := after_k pre (makeGraph k)
+  have hf := fresh_equiv g hinv
+  rw [hgk] at hf
+  refine ⟨?_, (after_mutators pre _).symm, hf.1, answer_equiv _ _ hf.1 hf.2.nodup hinv.nodup fuel,
+    fun m e => consensusCov_equiv _ _ hf.1 hf.2.nodup hinv.nodup fuel m e⟩
+  rw [trace_append]
+  rfl
+
+/-- the hypotheses are satisfiable and the statement is not empty (test, sample input): "acgtcag" x 5 and the
+chimera "cagacg" x 1 (k = 3) make a cycle; a query sees it; `FilterMinWeight(2)` removes it; the next query answers
+"no cycle" and returns the read — the history the seeded stale-memo regression gets wrong -/
+example : (∀ s ∈ [Step.push [97, 99, 103, 116, 99, 97, 103] 5, Step.push [99, 97, 103, 97, 99, 103] 1, Step.query,
+      Step.filter 2], s.Pos) := by
+  intro s hs
+  simp only [List.mem_cons, List.not_mem_nil, or_false] at hs
+  rcases hs with rfl | rfl | rfl | rfl <;> simp [Step.Pos]
+
+example :
+    ((makeGraph 3).after [Step.push [97, 99, 103, 116, 99, 97, 103] 5, Step.push [99, 97, 103, 97, 99, 103] 1]).hasCycle
+      = some true ∧
+    ((makeGraph 3).after [Step.push [97, 99, 103, 116, 99, 97, 103] 5, Step.push [99, 97, 103, 97, 99, 103] 1, Step.query,
+      Step.filter 2]).hasCycle = some false ∧
+    ((makeGraph 3).after [Step.push [97, 99, 103, 116, 99, 97, 103] 5, Step.push [99, 97, 103, 97, 99, 103] 1, Step.query,
+      Step.filter 2]).longestConsensusH 100 = .seq [97, 99, 103, 116, 99, 97, 103] ∧
+    (fresh 3 ((makeGraph 3).after [Step.push [97, 99, 103, 116, 99, 97, 103] 5, Step.push [99, 97, 103, 97, 99, 103] 1,
+      Step.query, Step.filter 2]).nodes).nodes
+      = ((makeGraph 3).after [Step.push [97, 99, 103, 116, 99, 97, 103] 5, Step.push [99, 97, 103, 97, 99, 103] 1,
+      Step.query, Step.filter 2]).nodes := by
+  decide
+
+/-- **Metamorphic laws of the mutators** (the second object of the harness): inside any history from
+`MakeDeBruijnGraph(k)`, (1) a run of pushes (counts ≥ 1) may be done in any order — and, queries being no mutators,
+in any interleaving with queries: the final map, the answers and every later observation are the same; (2) two
+filters in a row are one filter with the larger threshold as `uint` (`fmax`: a negative threshold wins); (3) the
+queries of a history can be deleted without changing the state. -/
+theorem history_metamorphic (k : Nat) (hk : 1 ≤ k) (h32 : k ≤ 32) (fuel : Nat) (h1 h2 : List Step)
+    (hp1 : ∀ s ∈ h1, s.Pos) (hp2 : ∀ s ∈ h2, s.Pos) :
+    (∀ reads reads' : List (Bytes × Nat), reads.Perm reads' → (∀ r ∈ reads, 1 ≤ r.2) →
+      let a := (makeGraph k).after (h1 ++ reads.map (fun r => Step.push r.1 r.2) ++ h2)
+      let b := (makeGraph k).after (h1 ++ reads'.map (fun r => Step.push r.1 r.2) ++ h2)
+      a.Equiv b ∧ a.answer fuel = b.answer fuel) ∧
+    (∀ a b : Int, (makeGraph k).after (h1 ++ [Step.filter a, Step.filter b] ++ h2)
+      = (makeGraph k).after (h1 ++ [Step.filter (fmax a b)] ++ h2)) ∧
+    (∀ h : List Step, (makeGraph k).after (h.filter Step.isMut) = (makeGraph k).after h) := by
+  refine ⟨?_, ?_, fun h => after_mutators h _⟩
+  · intro reads reads' hperm hc a b
+    have hc' : ∀ r ∈ reads', 1 ≤ r.2 := fun r hr => hc r (hperm.mem_iff.2 hr)
+    have i1 := inv_after h1 _ (inv_make k hk h32) hp1
+    have e : a.Equiv b := by
+      show ((makeGraph k).after (h1 ++ reads.map (fun r => Step.push r.1 r.2) ++ h2)).Equiv
+        ((makeGraph k).after (h1 ++ reads'.map (fun r => Step.push r.1 r.2) ++ h2))
+      rw [after_append, after_append, after_append, after_append, after_pushes, after_pushes]
+      exact after_equiv h2 _ _ (pushes_perm_from _ i1 reads reads' hperm hc) (inv_pushes reads _ i1 hc)
+        (inv_pushes reads' _ i1 hc') hp2
+    have ia : a.Inv := inv_after _ _ (inv_make k hk h32) (by
+      intro s hs
+      rcases List.mem_append.1 hs with hs | hs
+      · rcases List.mem_append.1 hs with hs | hs
+        · exact hp1 s hs
+        · exact pos_of_pushes reads hc s hs
+      · exact hp2 s hs)
+    have ib : b.Inv := inv_after _ _ (inv_make k hk h32) (by
+      intro s hs
+      rcases List.mem_append.1 hs with hs | hs
+      · rcases List.mem_append.1 hs with hs | hs
+        · exact hp1 s hs
+        · exact pos_of_pushes reads' hc' s hs
+      · exact hp2 s hs)
+    exact ⟨e, answer_equiv a b e ia.nodup ib.nodup fuel⟩
+  · intro a b
+    rw [after_append, after_append, after_append, after_append]
+    congr 1
+    show (((makeGraph k).after h1).filterMinWeight a).filterMinWeight b = ((makeGraph k).after h1).filterMinWeight (fmax a b)
+    exact filterMinWeight_filterMinWeight _ a b
+
+/-- non-vacuity / test (sample input): thresholds 4 then 2 = 4; 2 then -1 = -1 (everything removed) -/
+example : fmax 4 2 = 4 ∧ fmax 2 (-1) = -1 ∧ fmax (-1) 7 = -1 ∧
+    ((((makeGraph 3).push [97, 99, 103, 116, 99, 97, 103] 3).filterMinWeight 2).filterMinWeight (-1)).nodes
+      = (((makeGraph 3).push [97, 99, 103, 116, 99, 97, 103] 3).filterMinWeight (-1)).nodes := by decide
+
+/-- **The same for the k-mer index**: the observation of a `Query` (and of `FilterMinCount` on the returned
+`KmerMatch`, which belongs to the caller) placed after a history is a function of the index reached by the pushes of
+that history; queries do not change the index (so the same query twice in a row observes the same); and a run of
+`Push` with one occurrence limit from the empty index is the indexing loop of `NewKmerMap`, about which
+`index_exact` / `index_limited_exact` / `query_any_exact` speak. -/
+theorem index_query_after_history (m : KmerMap) (rank : Nat → Nat) (st : IState) (pre post : List IStep)
+    (qid : Nat) (q : Bytes) (mincount : Int) :
+    let s := st.after m pre
+    itrace m rank st (pre ++ IStep.query qid q mincount :: post)
+        = itrace m rank st pre ++
+          IObs.matched s.idx.len (kmQuery m s.idx rank qid q) (filterMinCount (kmQuery m s.idx rank qid q) mincount)
+            :: itrace m rank s post ∧
+      s.after m [IStep.query qid q mincount] = s ∧
+      ∀ (maxocc : Int) (refs : List Bytes),
+        ((⟨[], 0⟩ : IState).after m (refs.map fun r => IStep.push r maxocc)).idx = kmPushAll m maxocc [] 0 refs := by
+  intro s
+  refine ⟨?_, rfl, fun maxocc refs => ?_⟩
+  · rw [itrace_append]; rfl
+  · rw [after_pushes_eq]
 
 end ObiVerif.Props.C19
